@@ -23,7 +23,9 @@ def ulp_diff(a: int, b: int) -> float:
     if math.isnan(fa) or math.isnan(fb):
         return 0 if (math.isnan(fa) and math.isnan(fb)) else math.inf
     if fa == fb:
-        return 0
+        # +0.0 and -0.0 compare equal but are different results (1/x, sign of a sum): half a unit, so that "bit for bit"
+        # (ulps=0) comparisons see the difference and tolerant ones do not
+        return 0 if a == b or fa != 0 else 0.5
     def key(bits):
         return bits if bits < (1 << 63) else (1 << 63) - bits
     return abs(key(a) - key(b))
